@@ -16,7 +16,7 @@ from ..sh import shx
 from ..tv.translate import TEMPLATE_DIR, scratch_root
 
 SCRIPTS = {"atlas": "atlas/r21", "cms_aod": "cms/r5", "cms_miniaod": "cms/r7"}
-EXTERNAL = ("cmake", "make", "chmod", "sudo", "scram", "mkedanlzr", "rm", "cp", "xrdcp", "python", "cmsRun", "root", "source")
+EXTERNAL = ("cmake", "make", "chmod", "sudo", "scram", "mkedanlzr", "rm", "cp", "xrdcp", "python", "cmsRun", "root", "source", "tee")
 
 
 def script_text(backend):
@@ -163,6 +163,7 @@ EFFECTS = {
     "cmake": "exit 0", "make": "exit 0", "scram": "exit 0", "sudo": "exit 0",
     "chmod": 'exec /bin/chmod "$@"', "rm": 'exec /bin/rm "$@"', "cp": 'exec /bin/cp "$@"', "xrdcp": 'exec /bin/cp "$@"',
     "mkedanlzr": 'mkdir -p "$1/src" "$1/plugins" "$1/python"',
+    "tee": 'exec /usr/bin/tee "$@" > /dev/null',
     "python": 'sub=submitDir; for a in "$@"; do case "$a" in --submission-dir=*) sub="${a#--submission-dir=}";; esac; done; [ -f filelist.txt ] || exit 9; [ -d "$sub" ] || /bin/rm -f "$sub"; mkdir -p "$sub/data-ANALYSIS"; echo "JOB inv=$VERIF_INV input=$(cat filelist.txt)" > "$sub/data-ANALYSIS/ANALYSIS.root"',
     "cmsRun": '[ -f filelist.txt ] || exit 9; echo "JOB inv=$VERIF_INV input=$(cat filelist.txt)" > "./$CMS_OUTPUT_FILE"',
     "root": 'a="${@: -1}"; src=$(echo "$a" | sed -E \'s/.*\\("([^"]*)","([^"]*)"\\).*/\\1/\'); dst=$(echo "$a" | sed -E \'s/.*\\("([^"]*)","([^"]*)"\\).*/\\2/\'); [ -f "$src" ] || exit 9; echo "CONVERT $(cat "$src")" > "$dst"',
